@@ -1,12 +1,77 @@
 /-
-  Oracle commands for C14 (stub: owns no commands yet).
+  Oracle commands for C14 (stop strings + UTF-8 streaming):
+    find <seq> <n> <stop>*                 -> none | some <stop>
+    suffix <seq> <n> <stop>*               -> true | false
+    trunc <n> <piece>* <stop>              -> <n> <piece>* <0|1>
+    incomplete <s>                         -> true | false
+    valid <s>                              -> true | false
+    flush <n> <piece>*                     -> none | some <chunk>
+    loop <limit> <n> <stop>* <m> <ev>*     -> <reason> np=<k> out=<n> <chunk>* pend=<n> <piece>*
+        ev = E (end of sequence) | <piece>
+  Byte strings are hex, `-` is the empty string.
 -/
+import OllamaVerif.Model.Stop
 import Oracle.Util
 namespace Oracle.C14
-open Oracle
+open OllamaVerif OllamaVerif.Stop Oracle
+
+def showList (l : List Bytes) : String :=
+  joinWith " " (toString l.length :: l.map hexOrDash)
+
+def showBool (b : Bool) : String := if b then "true" else "false"
+
+def pEv : TP Ev := do
+  let t ← tok
+  if t == "E" then pure .eos
+  else match unhex t with
+    | some b => pure (.piece b)
+    | none => failure
 
 def handle (toks : List String) : Option String :=
   match toks with
+  | "find" :: rest =>
+    runTP (do
+      let s ← hex
+      let stops ← listOf hex
+      pure (match findStop s stops with
+        | none => "none"
+        | some st => s!"some {hexOrDash st}")) rest
+  | "suffix" :: rest =>
+    runTP (do
+      let s ← hex
+      let stops ← listOf hex
+      pure (showBool (containsStopSuffix s stops))) rest
+  | "trunc" :: rest =>
+    runTP (do
+      let ps ← listOf hex
+      let stop ← hex
+      let r := truncateStop ps stop
+      pure s!"{showList r.1} {if r.2 then 1 else 0}") rest
+  | "incomplete" :: rest =>
+    runTP (do
+      let s ← hex
+      pure (showBool (incompleteUnicode s))) rest
+  | "valid" :: rest =>
+    runTP (do
+      let s ← hex
+      pure (showBool (validUtf8 s))) rest
+  | "flush" :: rest =>
+    runTP (do
+      let ps ← listOf hex
+      pure (match flushChunk ps with
+        | none => "none"
+        | some c => s!"some {hexOrDash c}")) rest
+  | "loop" :: rest =>
+    runTP (do
+      let limit ← int
+      let stops ← listOf hex
+      let evs ← listOf pEv
+      let st := run limit stops init evs
+      let reason := match st.done with
+        | none => "running"
+        | some .stop => "stop"
+        | some .length => "length"
+      pure s!"{reason} np={st.numPredicted} out={showList st.out} pend={showList st.pending}") rest
   | _ => none
 
 end Oracle.C14
